@@ -60,3 +60,12 @@ Definition hist_ok (T : tables) (c : hist_case) : bool :=
 Fixpoint hist_mismatches_from (T : tables) (cs : list hist_case) (i : nat) : list nat :=
   match cs with [] => [] | c :: r => (if hist_ok T c then [] else [i]) ++ hist_mismatches_from T r (S i) end.
 Definition hist_mismatches (T : tables) (cs : list hist_case) := hist_mismatches_from T cs 0.
+
+(* histories of the accessor args(), which carries no cache: every call gets the cold answer *)
+Definition args_hist_case := (list ity * list (list ity))%type.
+Fixpoint ll_eqb (a b : list (list ity)) : bool :=
+  match a, b with [], [] => true | x :: r, y :: s => itys_eqb x y && ll_eqb r s | _, _ => false end.
+Definition args_hist_ok (c : args_hist_case) : bool := ll_eqb (map args (fst c)) (snd c).
+Fixpoint args_hist_mismatches_from (cs : list args_hist_case) (i : nat) : list nat :=
+  match cs with [] => [] | c :: r => (if args_hist_ok c then [] else [i]) ++ args_hist_mismatches_from r (S i) end.
+Definition args_hist_mismatches (cs : list args_hist_case) := args_hist_mismatches_from cs 0.
